@@ -1071,8 +1071,9 @@ class StubsStringGenerator:
         qname:
             The qualified name of a module/class/etc.
         """
-        if import_qname == "":  # pragma: no cover
-            raise ValueError("Type has no import source.")
+        # A name that could not be resolved, e.g. from a star import of a library that can't be found, can't be imported
+        if import_qname == "":
+            return
 
         qname_parts = import_qname.split(".")
         if (qname_parts[0] == "builtins" and len(qname_parts) == 2) or import_qname == "typing.Any":
